@@ -126,7 +126,21 @@ func c01Exec(r *vf.Run, spec mb.Msg, path int) []finding {
 	if werr != nil {
 		return []finding{{"render-error", fmt.Sprintf("%s failed: %v", c01Paths[path], werr)}}
 	}
-	return checkRendered(spec, buf.Bytes(), nil)
+	fs := checkRendered(spec, buf.Bytes(), nil)
+	if len(fs) == 0 {
+		r.Outcome("reached/faithful/via=" + c01Paths[path])
+		for _, f := range append(append([]mb.File{}, spec.Attach...), spec.Embeds...) {
+			if f.Source != "" {
+				r.Outcome("reached/faithful/file-source=" + f.Source)
+			}
+		}
+		for _, p := range spec.Parts {
+			if p.Via != "" {
+				r.Outcome("reached/faithful/part-via=" + p.Via)
+			}
+		}
+	}
+	return fs
 }
 
 var c01FileSeq int64
@@ -412,6 +426,11 @@ func init() {
 					})
 				}
 			})
+			for _, n := range c01Paths {
+				r.Reached("reached/faithful/via=" + n)
+			}
+			r.Reached("reached/faithful/file-source=reader", "reached/faithful/file-source=readseeker", "reached/faithful/file-source=buffer", "reached/faithful/file-source=ttpl", "reached/faithful/file-source=htpl",
+				"reached/faithful/part-via=string", "reached/faithful/part-via=tpl")
 		},
 		Replay: func(r *vf.Run, kase json.RawMessage) {
 			var k c01Case
